@@ -170,15 +170,17 @@ func (c *nonceCache) seenOnce(nonce string, expiresAt time.Time) bool {
 	c.mu.Lock()
 	defer c.mu.Unlock()
 
-	// Opportunistic cleanup.
+	// Opportunistic cleanup. An entry stays live up to and including its expiry
+	// instant: the tolerance check accepts a timestamp that is exactly
+	// Tolerance old, so the nonce must still be remembered at that instant.
 	now := c.now().UTC()
 	for k, exp := range c.m {
-		if !now.Before(exp) {
+		if now.After(exp) {
 			delete(c.m, k)
 		}
 	}
 
-	if exp, ok := c.m[nonce]; ok && now.Before(exp) {
+	if exp, ok := c.m[nonce]; ok && !now.After(exp) {
 		return false
 	}
 	c.m[nonce] = expiresAt.UTC()
